@@ -39,8 +39,8 @@ STUBS = [
     "FakeAsyncioTransport for the asyncio adapter",
 ]
 ASSUMPTIONS = ["a wrapped transport counts as released when its aclose() has been invoked (the in-memory transport is closed from that moment)"]
-BOUNDS = {"quick": "one cancellation at iteration k in 0..8, one fault out of 4, close suspensions 1-2", "thorough": "two cancellations"}
-OUTSIDE = "AsyncTCPNetworkClient.aclose over real sockets, real OpenSSL shutdown, trio"
+BOUNDS = {"quick": "one cancellation at iteration k in 1..8 (and two cancellations k < k2 in 1..6), faults per wrapped transport out of {none, OSError, RuntimeError}, close suspensions 1-2", "thorough": "k up to 12 / 10"}
+OUTSIDE = "real sockets, real OpenSSL shutdown, trio"
 
 FAULTS = [lambda: None, lambda: OSError(104, "reset"), lambda: RuntimeError("boom")]  # fresh exception objects per path
 
@@ -82,11 +82,14 @@ class StubContext:
         return self.made
 
 
-def close(path: str, Kmax: int = 8, susp: int = 1):
+def close(path: str, Kmax: int = 8, susp: int = 1, two_cancels: bool = False):
     def scenario(S):
         with loop_context() as loop:
             be = backend()
             k = S.int(1, Kmax, "cancel_at")  # >= 1: the close operation has started (its task ran its first step)
+            k2 = S.int(1, Kmax, "cancel_again_at") if two_cancels else -1
+            if two_cancels:
+                S.assume(k2 > k)
             trs = []
 
             def mem(fault_idx, close_susp=susp):
@@ -143,6 +146,24 @@ def close(path: str, Kmax: int = 8, susp: int = 1):
                 op = obj.aclose
                 outer_closing = obj.is_closing
                 second = obj.aclose
+            elif path == "aclient":
+                # the real AsyncTCPNetworkClient: connect (first use), then aclose()
+                from easynetwork.clients.async_tcp import AsyncTCPNetworkClient
+
+                from .c12 import MemBackend
+
+                fault = S.choice(3, "fault")
+                mb = MemBackend(lambda: mem(fault))
+                obj = AsyncTCPNetworkClient(("host", 1), StreamProtocol(L.RawSep(b"\n", limit=8)), mb)
+                t0 = loop.create_task(obj.wait_connected())
+                for _ in range(10):
+                    loop.step()
+                    if t0.done():
+                        break
+                t0.result()
+                op = obj.aclose
+                outer_closing = obj.is_closing
+                second = obj.aclose
             elif path == "tls-wrap":
                 a = mem(S.choice(3, "fault"))
                 expire = S.bool("handshake_timeout_first")
@@ -164,7 +185,7 @@ def close(path: str, Kmax: int = 8, susp: int = 1):
             task = loop.create_task(run())
             cancelled_running = False
             for i in range(Kmax + 1):
-                if i == k and not task.done():
+                if (i == k or i == k2) and not task.done():
                     cancelled_running = True
                     task.cancel()
                 if expire and i == 2:
@@ -220,7 +241,9 @@ def shards(tier: str):
     out = []
     quick = tier == "quick"
     B = 200 if quick else 1200
-    for path in ("stapled", "forcefully", "endpoint", "serverapi", "adapter", "tls-aclose", "tls-wrap"):
+    for path in ("stapled", "forcefully", "endpoint", "serverapi", "adapter", "tls-aclose", "tls-wrap", "aclient"):
         for susp in (1, 2) if path in ("stapled", "serverapi", "tls-aclose") else (1,):
             out.append({"name": f"close/{path}/s{susp}", "scenario": "props.c14:close", "params": dict(path=path, Kmax=8 if quick else 12, susp=susp), "budget": B, "cost": 100, "per_path_timeout": 30})
+        # two cancellations (the second one lands while the first is being handled)
+        out.append({"name": f"close2/{path}", "scenario": "props.c14:close", "params": dict(path=path, Kmax=6 if quick else 10, susp=2, two_cancels=True), "budget": B, "cost": 300, "per_path_timeout": 30})
     return out
